@@ -162,57 +162,102 @@ Example range_agg_example :
 Proof. split; vm_compute; reflexivity. Qed.
 
 (** the lexer model (Model/Lexer.v, compared with lexer.Tokenize on every run): a text written as tokens -- identifiers,
-    keywords that are not function names, operators / punctuation, interpreted strings -- each followed by ANY non-empty white
-    space (blanks, tabs, newlines, carriage returns) lexes to exactly those tokens; hence the layout between tokens is insignificant *)
-Theorem lex_layout : forall l : list (ltok * bytes), Forall LexerP.wf_item l ->
+    keywords, function keywords followed by an opening parenthesis ([fun_ok]), operators / punctuation, interpreted strings --
+    each followed by ANY non-empty white space (blanks, tabs, newlines, carriage returns) lexes to exactly those tokens; hence the
+    layout between tokens is insignificant *)
+Theorem lex_layout : forall l : list (ltok * bytes), Forall LexerP.wf_item l -> fun_ok l ->
   lex (layout l) = LexOk (map (fun p => lres (fst p)) l).
 Proof. exact lex_layout_lemma. Qed.
 Print Assumptions lex_layout.
 
 Theorem lex_layout_insignificant : forall l1 l2 : list (ltok * bytes),
-  Forall LexerP.wf_item l1 -> Forall LexerP.wf_item l2 -> map fst l1 = map fst l2 -> lex (layout l1) = lex (layout l2).
+  Forall LexerP.wf_item l1 -> Forall LexerP.wf_item l2 -> fun_ok l1 -> fun_ok l2 -> map fst l1 = map fst l2 -> lex (layout l1) = lex (layout l2).
 Proof. exact lex_layout_indep. Qed.
 
 Example lex_layout_example :
   let sp := [" "%byte] in let nl := [x0a; x09; " "%byte] in
   let l := [(LPunct TOpenBrace ["{"%byte], sp); (LId ["a"%byte; "p"%byte; "p"%byte], nl); (LPunct TRe ["="%byte; "~"%byte], sp); (LStr ["x"%byte; """"%byte], sp);
-            (LPunct TCloseBrace ["}"%byte], nl); (LPunct TPipe ["|"%byte], sp); (LWord TJSON ["j"%byte; "s"%byte; "o"%byte; "n"%byte], sp)] in
-  Forall LexerP.wf_item l /\ lex (layout l) = LexOk (map (fun p => lres (fst p)) l).
+            (LPunct TCloseBrace ["}"%byte], nl); (LPunct TPipeExact ["|"%byte; "="%byte], sp); (LFun TIP ["i"%byte; "p"%byte], nl); (open_paren, sp);
+            (LStr ["1"%byte], sp); (LPunct TCloseParen [")"%byte], sp); (LPunct TPipe ["|"%byte], sp); (LWord TJSON ["j"%byte; "s"%byte; "o"%byte; "n"%byte], sp)] in
+  Forall LexerP.wf_item l /\ fun_ok l /\ lex (layout l) = LexOk (map (fun p => lres (fst p)) l).
 Proof.
-  split; [|vm_compute; reflexivity].
-  repeat constructor; try discriminate; vm_compute; reflexivity.
+  split; [|split; [|vm_compute; reflexivity]].
+  - repeat constructor; try discriminate; vm_compute; reflexivity.
+  - cbn. tauto.
 Qed.
 
-(** lexer and parser composed: from the TEXT of a stream selector to its matchers.  The text is `{`, then label operator
-    value groups separated by `,`, then `}`, every token followed by any non-empty white space; label names are valid
-    identifiers, possibly keywords that are not function names (by, json, drop, ...); values are printable bytes written with
-    quote and backslash escaped; regex values compile ([text_matcher]).  The text lexes, and the parser returns exactly the
-    matchers. [tok_of] is what the driver does with a lexed token: string tokens receive the results of compiling their text. *)
+(** lexer and parser composed.  [ltok_of t] is how a parser token is written (a string literal with quote and backslash escaped, an
+    identifier, a keyword or operator by its spelling); [lexable t] says that this writing is in the lexer fragment above and that
+    the token carries only what the driver attaches to a lexed token ([tok_of]: string tokens receive the results of compiling
+    their text).  Lexable tokens, written one after the other with any non-empty white space after each, lex back to exactly those
+    tokens. *)
+Theorem lex_tokens :
+  forall (anch : bytes -> bool) (re_names : bytes -> option (list bytes)) (ts : list token) (l : list (ltok * bytes)),
+  map fst l = map ltok_of ts -> Forall (fun x => all_space (snd x)) l -> Forall (lexable anch re_names) ts -> funs_ok (map ltok_of ts) ->
+  exists toks, lex (layout l) = LexOk toks /\ map (tok_of anch re_names) toks = ts.
+Proof. exact lex_tokens_lemma. Qed.
+Print Assumptions lex_tokens.
+
+(** from the TEXT of a stream selector to its matchers: the text is `{`, then label operator value groups separated by `,`,
+    then `}`, every token followed by any non-empty white space; label names are valid identifiers, possibly keywords that are
+    not function names (by, json, drop, ...: [kw_cls] is the lexer's classification); values are printable bytes; regex values
+    compile ([text_matcher]).  The text lexes, and the parser returns exactly the matchers. *)
 Theorem selector_text_parse :
   forall (anch : bytes -> bool) (re_names : bytes -> option (list bytes)) (ms : list matcher) (l : list (ltok * bytes)) (p r : list token) (fuel : nat),
-  map fst l = selector_ltoks ms -> Forall (fun x => all_space (snd x)) l -> Forall (text_matcher anch) ms -> (length ms < fuel)%nat ->
+  map fst l = map ltok_of (print_selector anch re_names kw_cls ms) -> Forall (fun x => all_space (snd x)) l ->
+  Forall (text_matcher anch) ms -> (length ms < fuel)%nat ->
   exists toks, lex (layout l) = LexOk toks /\
     parse_selector fuel {| prev := p; rest := map (tok_of anch re_names) toks ++ r |} =
       POk ms {| prev := rev (print_selector anch re_names (fun _ => TIdent) ms) ++ p; rest := r |}.
 Proof. exact selector_text_lemma. Qed.
 Print Assumptions selector_text_parse.
 
-(** non-vacuity: a two-matcher selector whose label names are the keywords by and json, one value holding an escaped quote, a newline as one of the separators *)
-Example selector_text_example :
+(** ... and from the TEXT of a whole log query -- selector, then any number of stages of the PipelineP fragment (line filters
+    incl. ip(..), pattern, line_format, unpack, decolorize, drop / keep / distinct / json / logfmt with label lists, label_format)
+    whose label names are identifiers that are not keywords and whose strings are printable ([text_stage]) -- to its tree,
+    through parse_tokens (what logql.Parse does after tokenizing) *)
+Theorem log_query_text_parse :
+  forall (anch : bytes -> bool) (re_names : bytes -> option (list bytes)) (sel : list matcher) (sts : list stage) (l : list (ltok * bytes)),
+  map fst l = map ltok_of (print_selector anch re_names kw_cls sel ++ print_stages anch re_names sts) ->
+  Forall (fun x => all_space (snd x)) l ->
+  Forall (text_matcher anch) sel -> Forall text_stage sts -> chain_ok anch re_names sts [] ->
+  exists toks, lex (layout l) = LexOk toks /\ parse_tokens (map (tok_of anch re_names) toks) = Parsed (ELog sel sts).
+Proof. exact log_query_text_lemma. Qed.
+Print Assumptions log_query_text_parse.
+
+(** non-vacuity: a selector with the keyword label names by and json (one value holding an escaped quote), then an ip filter,
+    drop a , b and a label_format with a rename and a template, with a newline and a tab among the separators: the hypotheses hold, the layout is that text, and lexing then parsing it
+    gives the tree *)
+Example log_query_text_example :
   let anch := fun _ : bytes => true in
-  let ms := [ {| m_label := ["b"%byte; "y"%byte]; m_op := OpEq; m_value := ["v"%byte; """"%byte] |};
-              {| m_label := ["j"%byte; "s"%byte; "o"%byte; "n"%byte]; m_op := OpNotRe; m_value := ["x"%byte] |} ] in
-  let l := combine (selector_ltoks ms) [[" "%byte]; [" "%byte]; [" "%byte]; [" "%byte]; [x0a]; [" "%byte]; [x09; " "%byte]; [" "%byte]; [" "%byte]] in
-  map fst l = selector_ltoks ms /\ Forall (fun x => all_space (snd x)) l /\ Forall (text_matcher anch) ms /\
-  layout l = [ "{"; " "; "b"; "y"; " "; "="; " "; """"; "v"; "\"; """"; """"; " "; ","; x0a; "j"; "s"; "o"; "n"; " "; "!"; "~"; x09; " "; """"; "x"; """"; " "; "}"; " " ]%byte /\
+  let rn := fun _ : bytes => Some (@nil bytes) in
+  let sel := [ {| m_label := ["b"%byte; "y"%byte]; m_op := OpEq; m_value := ["v"%byte; """"%byte] |};
+               {| m_label := ["j"%byte; "s"%byte; "o"%byte; "n"%byte]; m_op := OpNotRe; m_value := ["x"%byte] |} ] in
+  let sts := [SLine OpEq ["1"%byte] true; SDrop [["a"%byte]; ["b"%byte]] []; SLabelFormat [(["d"%byte], ["c"%byte])] [(["e"%byte], ["t"%byte])]] in
+  let toks := print_selector anch rn kw_cls sel ++ print_stages anch rn sts in
+  let l := map (fun t => (ltok_of t, if ttype_eqb (ty t) TComma then [x0a; x09] else [" "%byte])) toks in
+  map fst l = map ltok_of toks /\ Forall (fun x => all_space (snd x)) l /\ Forall (text_matcher anch) sel /\ Forall text_stage sts /\
+  chain_ok anch rn sts [] /\
+  firstn 14 (layout l) = [ "{"; " "; "b"; "y"; " "; "="; " "; """"; "v"; "\"; """"; """"; " "; "," ]%byte /\
   match lex (layout l) with
-  | LexOk toks => match parse_selector 5 {| prev := []; rest := map (tok_of anch (fun _ => None)) toks |} with POk r _ => r = ms | _ => False end
+  | LexOk lexed => parse_tokens (map (tok_of anch rn) lexed) = Parsed (ELog sel sts)
   | _ => False
   end.
 Proof.
-  cbv zeta. split; [vm_compute; reflexivity|]. split; [|split; [|split; vm_compute; reflexivity]].
+  cbv zeta. split; [vm_compute; reflexivity|]. split; [|split; [|split; [|split; [|split; vm_compute; reflexivity]]]].
   - vm_compute. repeat constructor; discriminate.
   - repeat constructor; vm_compute; reflexivity.
+  - repeat constructor; vm_compute; reflexivity.
+  - cbn. unfold follows_ok, no_comma. cbn. repeat match goal with
+       | |- _ /\ _ => split
+       | |- forall _, _ => intro
+       | H : _ :: _ = _ :: _ |- _ => injection H as <- <-
+       | |- NoDup _ => constructor
+       | |- ~ _ => cbn; intuition discriminate
+       | |- _ <> _ => discriminate
+       end; try reflexivity; try exact I.
+  all: try (left; reflexivity).
+  all: try (left; discriminate).
 Qed.
 
 (** static rules *)
